@@ -7,6 +7,14 @@ M3   inventory of 32-bit products of two non-constant operands: each is listed w
 M4   std::accumulate-style folds use an initial value at least as wide as the elements they add up
 AS   stated beliefs: an assert(a != b) contradicts the function's own handling of a sentinel when both a and b are tested
      against the same literal elsewhere in the function (both may hold it at once), unless the assert admits that case
+PF   parameter forwarding: when a field of a *Parameters struct is copied into another struct that has a field of the same
+     name, it is copied into that field (the step / overlap bounds that make the reoptimisation strides non-zero are validated
+     on the user-facing names)
+DI   definite initialisation of the placement vectors of GlobalPlacer: a member vector that a step of run() reads has been
+     assigned on *every* path before (by the constructor or by an earlier step, not inside a loop that may run zero times)
+VB   validate before commit: in a member function (not a constructor) a throwing test that reads member M is not reachable
+     from a write of M in the same function - otherwise the test sees the new value (it compares it with itself) and a rejected
+     call has already changed the object
 E1   'last element' indices: size()-1 evaluated unsigned without a non-emptiness guard; a function that can
      return size()-1 == -1 for an empty container must not feed a subscript
 E2   loops with a computed step: the step is provably non-zero (or listed with the reason)
@@ -54,6 +62,9 @@ def run(ctx, rep, tier):
     rep.rule("M3", "every 32-bit product of two non-constant operands is listed with a bound argument", 5)
     rep.rule("M4", "fold accumulators are as wide as the elements", 3)
     rep.rule("AS", "no assert(a != b) that excludes a sentinel value both a and b are allowed to take (expected count 0)", 0)
+    rep.rule("PF", "same-named parameter fields are forwarded to each other", 8)
+    rep.rule("DI", "placement vectors of the global placer are assigned on every path before a step reads them", 2)
+    rep.rule("VB", "no throwing validation of a member after that member was overwritten in the same function (expected count 0)", 0)
     rep.rule("E1", "size()-1 style last-element indices are guarded against the empty container", 1)
     rep.rule("E2", "computed loop steps are provably non-zero or listed", 5)
     rep.rule("CTRL", "positive controls (selftest/c07_controls.cpp)", 4)
@@ -89,7 +100,7 @@ def run(ctx, rep, tier):
             return ctx.__class__.guards(self, *a, **k)
     sink = Sink()
     scan(CCtx(), ctl, sink, {"products_32bit": {}, "narrowing_exceptions": {}, "narrowings_64_to_32": {}, "loop_steps": {}}, control=True)
-    for rid, n in (("M1", 1), ("M2", 1), ("AS", 1), ("E1", 2), ("E2", 1)):
+    for rid, n in (("M1", 1), ("M2", 1), ("AS", 1), ("VB", 1), ("E1", 2), ("E2", 1)):
         got = sum(1 for r, _w in sink.v if r == rid)
         if got >= n:
             rep.holds("CTRL", "selftest/c07_controls.cpp", None, "rule %s reports its %d seeded control(s)" % (rid, n), "%d reported" % got)
@@ -198,6 +209,10 @@ def scan(ctx, prog, rep, cfgd, control):
     if not control and not any(i["rule"] == "M1" for i in rep.instances):
         rep.holds("M1", "src/**", None, "no int product widened afterwards", "%d functions scanned" % len(prog.funcs))
     check_as(ctx, prog, rep, control)
+    check_vb(ctx, prog, rep, control)
+    if not control:
+        check_pf(ctx, prog, rep)
+        check_di(ctx, prog, rep)
     check_e1(ctx, prog, rep, control)
     check_e2(ctx, prog, rep, cfgd, control)
 
@@ -421,6 +436,210 @@ def sign_guarded(ctx, f, node, idx):
                (gc[1] == "==" and lit == "-1" and not val) or (gc[1] == "!=" and lit == "-1" and val) or (gc[1] == ">" and lit == "-1" and val):
                 return True
     return False
+
+
+# ---- PF ---------------------------------------------------------------------------------
+
+def check_pf(ctx, prog, rep):
+    from ..expr import member_decl
+    n = 0
+    for f in prog.all_funcs(with_lambdas=False):
+        if f.body is None:
+            continue
+        for x in walk(f.body):
+            if x.get("kind") != "BinaryOperator" or x.get("opcode") != "=":
+                continue
+            l, r = children(x)
+            ls, rs = strip(l), strip(r)
+            if ls.get("kind") != "MemberExpr" or rs.get("kind") != "MemberExpr":
+                continue
+            dl, dr = member_decl(ls), member_decl(rs)
+            if not dl or not dr or dl.get("kind") != "FieldDecl" or dr.get("kind") != "FieldDecl":
+                continue
+            cl, cr = dl.get("_ctx") or "", dr.get("_ctx") or ""
+            if "Parameters" not in cr or cl == cr or cl not in prog.records:
+                continue
+            src = (dr.get("_q") or "").split("::")[-1]
+            dst = (dl.get("_q") or "").split("::")[-1]
+            if src not in prog.records[cl]["fields"]:
+                continue
+            n += 1
+            if src == dst:
+                rep.holds("PF", x, f, "%s: %s.%s copied into the field of the same name" % (f.short, short(cr), src))
+            else:
+                rep.violation("PF", x, f, "%s: %s.%s is copied into %s.%s" % (f.short, short(cr), src, short(cl), dst),
+                              "%s also has a field %s: the value validated under one name drives the other parameter, whose own bounds "
+                              "(e.g. overlap < size, which keeps the reoptimisation stride positive) are not checked for it" % (short(cl), src),
+                              key="%s|parameter %s forwarded to %s" % (f.short, src, dst))
+    if n == 0:
+        rep.unknown("PF", None, None, "parameter forwarding", "no struct-to-struct parameter copy found (shape changed)")
+
+
+# ---- DI ---------------------------------------------------------------------------------
+
+def check_di(ctx, prog, rep, rid="DI"):
+    gp = CQ + "GlobalPlacer"
+    rec = prog.records.get(gp)
+    runs = [f for f in prog.funcs.values() if f.cls == gp and f.name == "run"]
+    if not rec or len(runs) != 1:
+        rep.unknown(rid, None, None, "GlobalPlacer::run", "not found")
+        return
+    run = runs[0]
+    g = cfg_of(run)
+    trans = ctx.eff.transitive()
+    members = [n for n, fd in rec["fields"].items() if "vector<float" in qt(fd) or
+               qt(fd).replace("const ", "").strip() in ("float", "double", "int", "long long", "bool")]
+
+    def def_writes(f, fq):
+        """f assigns the whole member on every path from its entry to its normal exit."""
+        if f.body is None:
+            return False
+        cg = cfg_of(f)
+        nodes = []
+        for x in walk(f.body):
+            if x.get("kind") == "CXXOperatorCallExpr" and callee_info(x)["name"] == "operator=":
+                ch = children(x)
+                if len(ch) >= 3 and canon(ch[1]) == ("field", fq, ("this",)):
+                    n = cg.node_for(x)
+                    if n is not None:
+                        nodes.append(n)
+            if x.get("kind") == "CXXMemberCallExpr" and callee_info(x)["name"] in ("assign", "resize") and callee_info(x)["obj"] is not None and \
+                    canon(callee_info(x)["obj"]) == ("field", fq, ("this",)):
+                n = cg.node_for(x)
+                if n is not None:
+                    nodes.append(n)
+            if x.get("kind") == "BinaryOperator" and x.get("opcode") == "=" and canon(children(x)[0]) == ("field", fq, ("this",)):
+                n = cg.node_for(x)
+                if n is not None:
+                    nodes.append(n)
+        for ci_ in f.ctor_inits:
+            an = ci_.get("anyInit") or {}
+            if an.get("name") == fq.split("::")[-1]:
+                init = children(ci_)
+                # the implicit default initialiser (an empty vector) is not an assignment of content
+                if init and not (init[-1].get("kind") == "CXXConstructExpr" and not children(init[-1])):
+                    return True
+        return bool(nodes) and cg.exit.idx not in cg.reachable_from([cg.entry], avoid=nodes)
+
+    def reads_first(f, fq):
+        """Some occurrence of the member in f that is not one of its whole-member assignments is reachable from f's entry without
+        passing such an assignment: f looks at the member before (or without) defining it."""
+        if f.body is None:
+            return False
+        cg = cfg_of(f)
+        wnodes, rnodes = [], []
+        for x in walk(f.body):
+            if x.get("kind") == "MemberExpr":
+                d = member_decl_(x)
+                if d is not None and d.get("_q") == fq:
+                    p_ = x.get("_p")
+                    while p_ is not None and p_.get("kind") in ("ImplicitCastExpr", "ParenExpr"):
+                        p_ = p_.get("_p")
+                    is_w = p_ is not None and ((p_.get("kind") == "CXXOperatorCallExpr" and callee_info(p_)["name"] == "operator=" and
+                                                strip(children(p_)[1]) is x) or
+                                               (p_.get("kind") == "BinaryOperator" and p_.get("opcode") == "=" and strip(children(p_)[0]) is x))
+                    n_ = cg.node_for(x)
+                    if n_ is None:
+                        continue
+                    (wnodes if is_w else rnodes).append(n_)
+        reach = cg.reachable_from([cg.entry], avoid=wnodes)
+        return any(n_.idx in reach and n_ not in wnodes for n_ in rnodes)
+
+    from ..expr import member_decl as member_decl_
+    ctors = [f for f in prog.funcs.values() if f.cls == gp and f.kind == "CXXConstructorDecl" and not f.decl.get("isImplicit")
+             and not (len(f.params) == 1 and "GlobalPlacer" in qt(f.params[0]))]
+    n = 0
+    for m in members:
+        fq = gp + "::" + m
+        if any(def_writes(c, fq) for c in ctors):
+            n += 1
+            rep.holds(rid, rec["fields"][m], None, "GlobalPlacer::%s is assigned by the constructor" % m)
+            continue
+        calls = []
+        for x in walk(run.body):
+            if x.get("kind") == "CXXMemberCallExpr":
+                _c, hs = ctx.eff.resolve_callee(x)
+                for h in hs:
+                    if h.cls == gp:
+                        calls.append((x, h))
+        writers = [g.node_for(x) for x, h in calls if def_writes(h, fq) and not reads_first(h, fq)]
+        # assignments made by run() itself
+        for x in walk(run.body):
+            if (x.get("kind") == "BinaryOperator" and x.get("opcode") == "=" and canon(children(x)[0]) == ("field", fq, ("this",))) or \
+                    (x.get("kind") == "CXXOperatorCallExpr" and callee_info(x)["name"] == "operator=" and len(children(x)) >= 3 and
+                     canon(children(x)[1]) == ("field", fq, ("this",))):
+                writers.append(g.node_for(x))
+        writers = [w for w in writers if w is not None]
+        readers = [(x, h) for x, h in calls if (fq in trans.get(h.key, {}).get("reads", ()) and not def_writes(h, fq)) or reads_first(h, fq)]
+        if not readers:
+            continue
+        n += 1
+        reach = g.reachable_from([g.entry], avoid=writers)
+        bad = [(x, h) for x, h in readers if g.node_for(x) is not None and g.node_for(x).idx in reach]
+        if bad:
+            x, h = bad[0]
+            rep.violation(rid, x, run, "GlobalPlacer::%s may be read by %s before any step has assigned it" % (m, h.short),
+                          "no constructor initialiser and no step that assigns it on every path precedes this call in run(): with parameters for which "
+                          "the assigning loop runs zero times the vector is still empty and is indexed up to the number of cells",
+                          key="GlobalPlacer::run|%s read before definite assignment" % m)
+        else:
+            rep.holds(rid, rec["fields"][m], None, "GlobalPlacer::%s is assigned on every path (%d definite writer call(s) in run()) before the steps that read it" % (m, len(writers)))
+    if n == 0:
+        rep.unknown(rid, None, None, "placement vectors", "no float-vector member of GlobalPlacer read by the steps of run() (shape changed)")
+
+
+# ---- VB ---------------------------------------------------------------------------------
+
+def check_vb(ctx, prog, rep, control, rid="VB"):
+    trans = ctx.eff.transitive()
+    n = 0
+    for f in prog.all_funcs(with_lambdas=False):
+        if f.body is None or not f.cls or f.kind in ("CXXConstructorDecl", "CXXDestructorDecl"):
+            continue
+        throws = [x for x in walk(f.body) if x.get("kind") == "CXXThrowExpr"]
+        if not throws:
+            continue
+        g = cfg_of(f)
+        s = ctx.eff.summary(f)
+        wn = {}
+        for q, lst in list(s["writes"].items()) + list(s["escapes"].items()):
+            if not q.startswith(f.cls + "::"):
+                continue
+            for x, u in lst:
+                nd = g.node_for(u.node)
+                if nd is not None:
+                    wn.setdefault(q, []).append(nd)
+        for x in walk(f.body):
+            if x.get("kind") in ("CXXMemberCallExpr", "CallExpr"):
+                _c, hs = ctx.eff.resolve_callee(x)
+                for h in hs:
+                    for q in trans.get(h.key, {}).get("writes", ()):
+                        if q.startswith(f.cls + "::"):
+                            nd = g.node_for(x)
+                            if nd is not None:
+                                wn.setdefault(q, []).append(nd)
+        if not wn:
+            continue
+        for t in throws:
+            tn = g.node_for(t)
+            if tn is None:
+                continue
+            n += 1
+            done = False
+            for gc, val, _a, asr in (ctx.guards(f, t) or []):
+                for q, nodes in wn.items():
+                    if done or not any(u[0] == "field" and u[1] == q for u in subterms(gc)):
+                        continue
+                    if tn.idx in g.reachable_from(nodes):
+                        done = True
+                        rep.violation(rid, t, f, "%s validates %s after having written it" % (f.short, short(q)),
+                                      "the throwing test `%s` is reachable from a write of %s in the same function: it sees the new value instead of the "
+                                      "one it is meant to protect, and a call that is refused has already modified the object" % (pretty(gc)[:70], short(q)),
+                                      key="%s|%s validated after being written" % (f.short, short(q)))
+    if hasattr(rep, "extra"):
+        rep.extra["throwing_validations_examined"] = n
+    if not control and not any(i["rule"] == rid for i in rep.instances):
+        rep.holds(rid, "src/**", None, "no member function validates a member after overwriting it", "%d throw sites in functions that write members examined" % n)
 
 
 # ---- AS ---------------------------------------------------------------------------------
